@@ -16,6 +16,7 @@
 #include <map>
 #include <set>
 #include <sstream>
+#include <sys/time.h>
 #include <sys/wait.h>
 #include <unistd.h>
 
@@ -631,6 +632,13 @@ CPlan gen(uint64_t seed, bool failing) {
   return p;
 }
 
+void arm_cpu_guard(int seconds) { // hang guard: user CPU time per run, SIGVTALRM terminates the process
+  struct itimerval it;
+  memset(&it, 0, sizeof it);
+  it.it_value.tv_sec = seconds;
+  setitimer(ITIMER_VIRTUAL, &it, nullptr);
+}
+
 std::string read_file(const std::string &path) { std::ifstream f(path); std::stringstream ss; ss << f.rdbuf(); return ss.str(); }
 
 void print_v(uint64_t seed, const CViolation &v) {
@@ -732,6 +740,7 @@ int main(int argc, char **argv) {
       CPlan p;
       if (!cplan_parse(read_file(argv[i + 1]), &p)) { fprintf(stderr, "bad plan\n"); return 2; }
       for (int j = 1; j < argc; j++) if (std::string(argv[j]) == "--announce") g_announce = 2;
+      arm_cpu_guard(30);
       CResult r = execute(p);
       printf("HASH %016llx\n", (unsigned long long)r.hash);
       for (auto &v : r.viol) print_v(p.seed, v);
@@ -777,6 +786,7 @@ int main(int argc, char **argv) {
     printf("RUN %llu\n", (unsigned long long)s);
     fflush(stdout);
     CPlan p = gen(s, mode == "contfail");
+    arm_cpu_guard(30);
     CResult r = execute(p);
     runs++;
     ops += r.ops;
